@@ -15,7 +15,7 @@ for j in jobs:
     if not j.ok:
         print("NOT-RUN", j.name, getattr(j, "why", ""), [l for l in j.wlines if not l.startswith(("ret=", "len="))][:3])
         continue
-    for sfx in ("on", "off"):
+    for sfx in ("on", "off", "mixfd", "mixdf"):
         v = verdicts.get("%s/%s" % (j.name, sfx), "<no verdict>")
         if not v.startswith("ok"):
             print(j.name, sfx, v[:400])
